@@ -600,6 +600,15 @@ def cases(tier, seed):
                             base = dict(n=n, d=d, field=field, form=form, solver=solver, prior=pick(priors, i), kind="mixed", rank=rank, seed=sd + i)
                             for cl in (clauses if thorough or not slow else clauses[:1] + clauses[2:5]):
                                 add(cl, base, icl("min_error", form, field, "dm", solver))
+            # ---- a state that is never prepared (exact zero prior, not in the last position): value and *labelled* operators still certified
+            for field in fields:
+                for form in forms:
+                    for n, d in ((3, 2), (3, 3), (4, 3)):
+                        for pk in ("zero-first", "zero-middle"):
+                            i += 1
+                            base = dict(n=n, d=d, field=field, form=form, solver=solver, rep=pick(reps, i), prior=pk, kind="pure", seed=sd + i, phases=True)
+                            for cl in ME_GENERIC:
+                                add(cl, base, icl("min_error", form, field, "zero-prior", solver))
             # ---- two states: Helstrom (pure pairs with prescribed overlap, mixed pairs)
             for field in fields:
                 for form in forms:
